@@ -13,6 +13,7 @@ func init() {
 }
 
 func runC08(p *Prog, r *Report) {
+	lockBalance(p, r, "C08.8/E1", "protocol/xbus", "protocol/xstar")
 	q := NewQ(p, r)
 	R := "C08.1/bus-send"
 	r.Describe(R, "xbus.SendMsg: every pipe visited; a send only when p.p.ID() != id; id = header word iff len(Header) == 4 else 0; MakeUnique result used; Clone/Free balanced")
@@ -43,6 +44,9 @@ func runC08(p *Prog, r *Report) {
 			return len(s) == 1
 		}
 		r.Check(skip(snd) && skip(cl) && snd[0].Args[0] == "φm" && len(snd[0].Args) == 2 && snd[0].Args[1] == "nonblocking", R, "never-back-to-source", snd.Pos(p), "a copy is queued only for pipes whose id differs from the source id", "a forwarded message can be sent back on the pipe it came from (the send is not guarded by p.p.ID() != id): "+guardsOf(snd))
+		if len(snd) == 1 {
+			fanoutNoBypass(p, r, R, "xbus.SendMsg", snd[0].In, func(a string) bool { return strings.HasSuffix(a, ".p.ID() == φid") }, " (skipped only for the source pipe)")
+		}
 		if body != nil && len(snd) == 1 {
 			r.Check(body[snd[0].In.Block()], R, "send-inside-loop", snd.Pos(p), "inside the loop over all pipes", "the send is outside the loop over the pipes")
 		}
@@ -124,6 +128,9 @@ func runC08(p *Prog, r *Report) {
 			}
 		}
 		r.Check(ok, R, "not-back-to-source-own-copy", snd.Pos(p), "forwarded (as a private Dup) to every pipe p2 != p", "the STAR forwarder does not send a private copy to every pipe other than the arrival pipe: "+argsOf(snd)+" "+guardsOf(snd))
+		if len(snd) == 1 {
+			fanoutNoBypass(p, r, R, "xstar.receiver", snd[0].In, func(a string) bool { return strings.HasSuffix(a, "== recv") }, " (skipped only for the arrival pipe)")
+		}
 		if body != nil && len(snd) == 1 {
 			r.Check(body[snd[0].In.Block()], R, "forward-inside-loop", snd.Pos(p), "inside the loop over all pipes", "forwarding is outside the loop")
 		}
